@@ -87,7 +87,9 @@ def gen_case(rng, tier, g):
             'prior': prior, 'combos': [list(c) for c in combos],
             'prefix': rng.choice(['none', 'none', 'uncommitted-then-commit',
                                   'failed-then-rollback']),
-            'pipeline': rng.random() < 0.3}
+            'pipeline': rng.random() < 0.3,
+            'schema': rng.choice([None, None, 'main']),
+            'read_via': rng.choice(['conn', 'name', 'mkcurs', 'cursor'])}
 
 
 class _Bad(Exception):
@@ -138,11 +140,17 @@ def _mk_dbo(handle, path, caller):
     return lambda: caller.cursor()
 
 
+_SCHEMA = [None]
+
+
 def _load(e, op, src, dbo, commit):
+    kw = {}
+    if _SCHEMA[0] is not None:
+        kw['schema'] = _SCHEMA[0]
     if op == 'todb':
-        e.todb(src, dbo, 't', commit=commit)
+        e.todb(src, dbo, 't', commit=commit, **kw)
     else:
-        e.appenddb(src, dbo, 't', commit=commit)
+        e.appenddb(src, dbo, 't', commit=commit, **kw)
 
 
 def _check(path, cols, model, what):
@@ -240,9 +248,21 @@ def _one(e, case, path, op, handle, commit, fault, log):
             # and fromdb returns the same rows
             rd = sqlite3.connect(path)
             try:
-                got = [tuple(r) for r in e.fromdb(
-                    rd, 'select %s from t order by rowid' % ', '.join(
-                        '"%s"' % c for c in cols))]
+                via = case.get('read_via', 'conn')
+                rh = {'conn': rd, 'name': path,
+                          'cursor': rd.cursor(),
+                          'mkcurs': (lambda: rd.cursor())}[via]
+                view = e.fromdb(rh, 'select %s from t order by rowid'
+                                % ', '.join('"%s"' % c for c in cols))
+                got = [tuple(r) for r in iter(view)]
+                if via != 'cursor':
+                    # a second pass returns the same rows
+                    again = [tuple(r) for r in iter(view)]
+                    if canon_rows(again) != canon_rows(got):
+                        raise _Bad('fromdb-differs', '%s: second pass of '
+                                   'fromdb returns %r, first %r'
+                                   % (what, again, got))
+                del view, rh
             finally:
                 rd.close()
             if canon_rows(got) != canon_rows([tuple(cols)] + model):
@@ -273,6 +293,7 @@ def run_case(case):
     faults = [None] + [['raise', i] for i in range(0, n + 2)] + \
         [['badrow', i] for i in range(1, n + 1)]
     nruns = 0
+    _SCHEMA[0] = case.get('schema')
     fired = {'source-raise': 0, 'malformed-row': 0}
     try:
         with devices.TempSandbox() as sb:
